@@ -2,7 +2,7 @@
 # usage: tools/run_all.sh <tier> <seed> [ids...]  - runs every registered check once, prints verdict lines
 TIER=${1:-quick}; SEED=${2:-0}; shift 2
 IDS=${@:-C01 C02 C03 C04 C05 C06 C07 C08 C09 C10 C11 C12 C13 C14 C15 C16 C17 C18 C19 C20}
-cd /verif
+cd "$(dirname "$0")/.."
 for P in $IDS; do
   S=$(date +%s)
   OUT=$(VERIF_SEED=$SEED ./vf check $P --tier $TIER 2>&1); RC=$?
